@@ -329,6 +329,93 @@ def occurrence_probes(rnd, events, quick):
     events.append({"op": "MaxMesh", "q": [], "occ": [], "res": sorted(list(c) for c in maximal_mesh_pattern_of_occurrence(Perm(()), [])), "meta": {"form": "empty"}})
 
 
+# ---- the algorithm as a machine (C17_BiscMachine): design theorems by TLC, the intermediate tables against the real code ----
+MACHINE_INVS = ["TypeOK", "MinedTableIsItsMeaning", "TableSound", "OutputSound", "OutputComplete", "OutputIrredundant",
+                "OutputIsItsMeaning", "PatternsShort"]
+
+
+def machine_start(ctx, rnd, quick):
+    """TLC runs the BiSC machine on a family of inputs (subsets of S_0..S_3; all 1024 of them in the thorough tier), M = 2,
+    N = 3, and once with every mining order on a small family."""
+    import concurrent.futures
+    pool3 = [p for k in range(4) for p in util.perms_of(k)]
+    if quick:
+        fam = [tuple(p for p in pool3 if rnd.random() < dens) for dens in [0.2, 0.4, 0.5, 0.6, 0.8, 0.9] * 6]
+        fam += [(), tuple(pool3), tuple(p for p in pool3 if len(p) < 3), ((), (0,), (0, 1), (0, 1, 2), (2, 0, 1))]
+    else:
+        fam = [tuple(p for i, p in enumerate(pool3) if mask >> i & 1) for mask in range(1 << len(pool3))]
+    fam = sorted(set(fam))
+    nsh = 8 if quick else 16
+    jobs = []
+    for sh in range(nsh):
+        part = fam[sh::nsh]
+        fdef = "{" + ", ".join("{" + ", ".join(tlc.tla(list(p)) for p in A) + "}" for A in part) + "}"
+        mod = util.mc_module("MC_C17M", "C17_BiscMachine", {"FamilyDef": fdef})
+        k = {"Family": ("<-", "FamilyDef"), "M": 2, "N": 3, "AllOrders": "FALSE"}
+        jobs.append(("MC_C17M", util.cfg(init="Init", next_="Next", invariants=MACHINE_INVS + ["EmitDone"], constants=k),
+                     {"files": {"MC_C17M.tla": mod}, "timeout": 3000}))
+    small = [A for A in fam if len(A) <= 5][:: (6 if quick else 2)][:24]
+    fdef = "{" + ", ".join("{" + ", ".join(tlc.tla(list(p)) for p in A) + "}" for A in small) + "}"
+    mod = util.mc_module("MC_C17M", "C17_BiscMachine", {"FamilyDef": fdef})
+    k = {"Family": ("<-", "FamilyDef"), "M": 2, "N": 3, "AllOrders": "TRUE"}
+    jobs.append(("MC_C17M", util.cfg(init="Init", next_="Next", invariants=MACHINE_INVS, constants=k), {"files": {"MC_C17M.tla": mod}, "timeout": 3000}))
+    ex = concurrent.futures.ThreadPoolExecutor(max_workers=1)
+    return ex, ex.submit(tlc.run_many, jobs, 6 if quick else 16), len(fam), len(small)
+
+
+def machine_finish(ctx, started):
+    """Every final state of the machine against the real code: mine() must have built the machine's table of allowed occupied
+    sets, forb() its table of forbidden shadings, bisc() its output.  These are mechanism comparisons (the property only
+    promises a sound, complete, irredundant output - judged by the Bisc events): a difference is reported as drift."""
+    from permuta.bisc.bisc_subfunctions import forb, mine
+    ex, fut, nfam, nsmall = started
+    results = fut.result()
+    ex.shutdown(wait=False)
+    for r in results[:-1]:
+        ctx.add_tlc(r, "BiSC machine: design theorems over a shard of the family")
+    ctx.add_tlc(results[-1], "BiSC machine: every mining order (%d small inputs)" % nsmall)
+    ndone = nsame = 0
+    for r in results[:-1]:
+        for rec in r.records:
+            if "allowed" not in rec:
+                continue
+            ndone += 1
+            A = [tuple(a) for a in rec["A"]]
+            D = collections.defaultdict(list)
+            for a in A:
+                D[len(a)].append(Perm(a))
+            st, got = util.call(quiet, mine, D, 2, 3)
+            if st == "raise":
+                ctx.violation({"kind": "machine", "A": rec["A"], "call": "mine"}, "NoException", "the table of allowed patterns", got)
+                continue
+            ci, good = got
+            want_t = {tuple(e["p"]): {frozenset(map(tuple, u)) for u in e["sets"]} for e in rec["allowed"]}
+            have_t = {tuple(p): {frozenset(map(tuple, u)) for u in us} for j in (good or {}) for p, us in good[j].items() if us}
+            same = sorted(ci) == rec["interval"] and (not rec["interval"] or have_t == want_t)
+            if same and rec["interval"]:
+                st, outp = util.call(quiet, forb, ci, good, 2)
+                if st == "raise":
+                    ctx.violation({"kind": "machine", "A": rec["A"], "call": "forb"}, "NoException", "the table of forbidden patterns", outp)
+                    continue
+                want_b = {tuple(e["p"]): {frozenset(map(tuple, u)) for u in e["sets"]} for e in rec["bad"]}
+                have_b = {tuple(p): {frozenset(map(tuple, u)) for u in us} for j in outp for p, us in outp[j].items() if us}
+                same = have_b == want_b
+            if same:
+                st, SG = util.call(quiet, bisc, [Perm(a) for a in A], 2, 3)
+                want_o = {(tuple(e["p"]), frozenset(map(tuple, e["R"]))) for e in rec["out"]}
+                have_o = set() if st == "raise" or not SG else {(tuple(p), frozenset(map(tuple, R))) for n in SG for p in SG[n] for R in SG[n][p]}
+                same = st == "ok" and have_o == want_o
+            nsame += same
+            ctx.case(("machine", tuple(A)), nontrivial=bool(rec["out"]))
+            if not same:
+                ctx.drift("BiSC machine and real mine / forb / bisc differ on A = %s (tables or output; mechanism level)" % rec["A"])
+            if ndone == 7:
+                ctx.sample({"machine": "C17_BiscMachine", "A": rec["A"], "interval": rec["interval"], "allowed": rec["allowed"][:3], "out": rec["out"][:3]})
+    if ndone != nfam:
+        raise tlc.MachineryFailure("C17: BiSC machine emitted %d final states for %d inputs" % (ndone, nfam))
+    ctx.note("bisc_machine", {"inputs": nfam, "final_states_matching_real_mine_forb_bisc": nsame, "inputs_with_every_mining_order": nsmall})
+
+
 # ---- the automatic driver on many properties defined by mesh patterns, sixteen interpreters side by side ---------------------
 AUTO_CHILD = r"""
 import contextlib, io, json, sys
@@ -458,6 +545,7 @@ def run(ctx):
     nruns = 0
     phases, t0 = {}, [time.time()]
     auto_started = auto_mesh_start(ctx, util.rng(ctx, 1717), quick)      # sixteen interpreters work while this one goes on
+    machine_started = machine_start(ctx, util.rng(ctx, 1718), quick)     # and TLC explores the algorithm itself
 
     def lap(what):
         phases[what] = round(time.time() - t0[0], 1)
@@ -564,6 +652,8 @@ def run(ctx):
         vs = list(ex.map(lambda ch: util.validate_trace(ctx, "Trace_C17", [{k: v for k, v in e.items() if k != "meta"} for e in ch],
                                                         ntraces=len(ch), timeout=3000), chunks))
     lap("trace validation")
+    machine_finish(ctx, machine_started)
+    lap("BiSC machine against mine / forb / bisc")
     ops = {}
     known = ctx.known_entry(DUP_SITE, DUP_DEV)
     ndup = 0
